@@ -2,7 +2,7 @@
 """Run the quick checks on a behaviour-preserving refactoring delivered by a sub-agent
 (/tmp/out4/<prop>/<k>/patch.diff): the checks must stay silent.
 
-usage: refverify.py <prop> <k> [--props C01,C02] [--keep] [--round 2]
+usage: refverify.py <prop> <k> [--props C01,C02] [--keep] [--round 2] [--tree /tmp/scratch-worktree]
  applies the patch to /repo, runs the registered quick check of the property (and any others
  named) with -noevidence, undoes the patch.  Prints one JSON line.  With --keep the case is copied
  to /verif/refactors/<prop>-<k>/ with the outcome recorded in meta.json; first.json remembers
@@ -23,17 +23,18 @@ def main():
     if "--props" in args:
         props = args[args.index("--props") + 1].split(",")
     rnd = args[args.index("--round") + 1] if "--round" in args else "1"
+    tree = args[args.index("--tree") + 1] if "--tree" in args else "/repo"
     out = "/tmp/out%s/%s/%s" % ({"1": "4", "2": "5"}.get(rnd, rnd), prop, k)
     kept = "/verif/refactors/%s-%s%s" % (prop, "" if rnd == "1" else "r%s-" % rnd, k)
     if not os.path.exists(out + "/patch.diff") and os.path.exists(kept + "/patch.diff"):
         out = kept
     meta = json.load(open(out + "/meta.json")) if os.path.exists(out + "/meta.json") else {}
     res = {"prop": prop, "k": k, "kind": meta.get("kind"), "summary": (meta.get("summary") or "")[:200]}
-    c, o = sh("git -C /repo status --porcelain --untracked-files=no")
+    c, o = sh("git -C %s status --porcelain --untracked-files=no" % tree)
     if o.strip():
-        res["error"] = "/repo is not clean"
+        res["error"] = tree + " is not clean"
         print(json.dumps(res)); return 1
-    c, o = sh("git -C /repo apply %s/patch.diff" % out)
+    c, o = sh("git -C %s apply %s/patch.diff" % (tree, out))
     if c != 0:
         res["error"] = "patch does not apply: " + o[-300:]
         print(json.dumps(res)); return 1
@@ -46,17 +47,17 @@ def main():
             if d.startswith("cmd/snap-update-ns") or d.startswith("cmd/snap-seccomp"):
                 builds[d] = "cgo main, not built here"
                 continue
-            c, o = sh("go build ./%s/" % d, "/repo")
+            c, o = sh("go build ./%s/" % d, tree)
             builds[d] = "ok" if c == 0 else "FAIL: " + o[-300:]
         res["builds"] = builds
         checks = {}
         for p in props:
-            c, o = sh("/verif/bin/snapverif check -p %s -tier quick -noevidence" % p, "/verif")
+            c, o = sh("/verif/bin/snapverif check -p %s -tier quick -noevidence -repo %s" % (p, tree), "/verif")
             rep = [re.sub(r"\s+", " ", l)[:500] for l in o.splitlines() if "VIOLATED" in l or "UNDECIDED" in l]
             checks[p] = {"exit": c, "reports": rep[:8]}
         res["checks"] = checks
     finally:
-        sh("git -C /repo checkout -- .")
+        sh("git -C %s checkout -- ." % tree)
     res["alarms"] = [p for p, v in res["checks"].items() if v["exit"] != 0]
     ffile = out + "/first.json"
     if not os.path.exists(ffile):
